@@ -843,7 +843,7 @@ theorem inlineChanges_nonReplace (lnl : Bytes → List (Nat × Nat)) (repair : B
 theorem inlineChanges_gate1 (lnl : Bytes → List (Nat × Nat)) (repair : Bool) (old new : Array Bytes)
     (o ol n nl : Nat) (segO segN : List (List Nat)) (w : World)
     (hb : o + ol ≤ old.size ∧ n + nl ≤ new.size)
-    (hg : upperSeqRatio ((old.toList.drop o).take ol).length ((new.toList.drop n).take nl).length < 0.5) :
+    (hg : F32.lt (upperSeqRatio ((old.toList.drop o).take ol).length ((new.toList.drop n).take nl).length) F32.half = true) :
     inlineChanges lnl repair old new (.replace o ol n nl) segO segN w
       = (inlinePlain old new (.replace o ol n nl)).map (·, w) := by
   unfold inlineChanges
@@ -854,12 +854,12 @@ theorem inlineChanges_gate1 (lnl : Bytes → List (Nat × Nat)) (repair : Bool) 
 theorem inlineChanges_gate2 (lnl : Bytes → List (Nat × Nat)) (repair : Bool) (old new : Array Bytes)
     (o ol n nl : Nat) (segO segN : List (List Nat)) (w w' : World) (ops2 : List Op)
     (hb : o + ol ≤ old.size ∧ n + nl ≤ new.size)
-    (hg : ¬ upperSeqRatio ((old.toList.drop o).take ol).length ((new.toList.drop n).take nl).length < 0.5) :
+    (hg : ¬ F32.lt (upperSeqRatio ((old.toList.drop o).take ol).length ((new.toList.drop n).take nl).length) F32.half = true) :
     let oSeqs := (multiLookup 0 ((old.toList.drop o).take ol) segO).toArray
     let nSeqs := (multiLookup 0 ((new.toList.drop n).take nl) segN).toArray
     captureDiff .patience (Env.ofTokens (oSeqs.map (·.1)) (nSeqs.map (·.1))) repair 0 oSeqs.size 0 nSeqs.size w
       = .ok (ops2, w') →
-    ratioF ((ratioPair ops2 oSeqs.size nSeqs.size).1 / 2) (ratioPair ops2 oSeqs.size nSeqs.size).2 < 0.5 →
+    F32.lt (ratioF ((ratioPair ops2 oSeqs.size nSeqs.size).1 / 2) (ratioPair ops2 oSeqs.size nSeqs.size).2) F32.half = true →
     inlineChanges lnl repair old new (.replace o ol n nl) segO segN w
       = (inlinePlain old new (.replace o ol n nl)).map (·, w') := by
   intro oSeqs nSeqs hcap hr
@@ -925,13 +925,13 @@ theorem inlineChanges_replace (lnl : Bytes → List (Nat × Nat)) (hlnl : ∀ s,
     (repair : Bool) (old new : Array Bytes)
     (o ol n nl : Nat) (segO segN : List (List Nat)) (w w' : World) (ops2 : List Op) {e2 : Nat → Nat → Bool}
     (hb : o + ol ≤ old.size ∧ n + nl ≤ new.size)
-    (hg : ¬ upperSeqRatio ((old.toList.drop o).take ol).length ((new.toList.drop n).take nl).length < 0.5)
+    (hg : ¬ F32.lt (upperSeqRatio ((old.toList.drop o).take ol).length ((new.toList.drop n).take nl).length) F32.half = true)
     (hO : SegsOK ((old.toList.drop o).take ol) segO) (hN : SegsOK ((new.toList.drop n).take nl) segN) :
     let oSeqs := (multiLookup 0 ((old.toList.drop o).take ol) segO).toArray
     let nSeqs := (multiLookup 0 ((new.toList.drop n).take nl) segN).toArray
     captureDiff .patience (Env.ofTokens (oSeqs.map (·.1)) (nSeqs.map (·.1))) repair 0 oSeqs.size 0 nSeqs.size w
       = .ok (ops2, w') →
-    ¬ ratioF ((ratioPair ops2 oSeqs.size nSeqs.size).1 / 2) (ratioPair ops2 oSeqs.size nSeqs.size).2 < 0.5 →
+    ¬ F32.lt (ratioF ((ratioPair ops2 oSeqs.size nSeqs.size).1 / 2) (ratioPair ops2 oSeqs.size nSeqs.size).2) F32.half = true →
     Walk e2 0 0 ops2 oSeqs.size nSeqs.size →
     ∃ cs, inlineChanges lnl repair old new (.replace o ol n nl) segO segN w = .ok (cs, w') ∧
       cs.map (fun c => (c.tag, c.oldIndex, c.newIndex))
@@ -968,7 +968,7 @@ theorem inlineChanges_replace (lnl : Bytes → List (Nat × Nat)) (hlnl : ∀ s,
     have hb' : (decide (old.size < o + ol) || decide (new.size < n + nl)) = false := by simp; omega
     simp only [hb', Bool.false_eq_true, if_false, hg]
     simp only [oSeqs, nSeqs] at hcap hr h1
-    simp only [hcap, hr, if_false, h1]
+    simp only [hcap, hr, Bool.false_eq_true, if_false, h1]
   · rw [C13.opChanges_eq_spec]
     simp only [List.map_append, numberFrom_idx, hlo, hln, Spec.iterChanges, List.map_map]
     congr 1
